@@ -114,7 +114,10 @@ type sim struct {
 	chunkDense map[uint64]int
 	nextChunk  int
 	nextSrc    int
-	crashMode  bool // the running server was started on a crash image
+	// treeDamaged: the image has zero-filled / cut tree files AND the snapshot that refers to them (finding F47's class):
+	// the blocks the snapshot's roots point to are free and get re-allocated by index (re)builds of other chunks
+	treeDamaged bool
+	crashMode   bool // the running server was started on a crash image
 	dead       bool // the server refused to start / infrastructure problem: stop the case
 	sect       *vh.Section
 }
@@ -166,7 +169,7 @@ func (s *sim) specFail(kind, what, impl, spec, model string, eq bool, finding st
 // fork: a copy of the simulation on a copy of the directory (the server is NOT started), with its own model driver
 func (s *sim) fork(dir string) *sim {
 	c := &sim{sec: s.sec, sect: s.sect, in: s.in, dir: dir, opts: s.opts, parts: map[string]*part{}, pipes: map[string]pipe.Pipe{},
-		deleted: map[string]bool{}, chunkDense: map[uint64]int{}, nextChunk: s.nextChunk, nextSrc: s.nextSrc}
+		deleted: map[string]bool{}, chunkDense: map[uint64]int{}, nextChunk: s.nextChunk, nextSrc: s.nextSrc, treeDamaged: s.treeDamaged}
 	for k, p := range s.parts {
 		q := *p
 		q.events = append([]ev{}, p.events...)
@@ -949,6 +952,14 @@ func (s *sim) oracle(rng *vh.Rng, how string, ref probeRef) {
 					continue
 				}
 			}
+			if s.treeDamaged && !eq && err == nil && len(got) < len(want) {
+				// MODEL (as a relation): the snapshot's roots point into a tree file whose content is gone; which window a
+				// look-up through such a root yields depends on what the asynchronous index (re)builds of other chunks have
+				// put into those blocks meanwhile — the hull-level model admits any sub-answer here (class of F47)
+				s.specFail("hidden-event", fmt.Sprintf("RANGE [%d:%d] over partition %s after %s hides flushed events", r[0], r[1], p.tags, how),
+					evsStr(got), evsStr(want), "any sub-answer (stale root into a damaged tree file)", true, "F47")
+				continue
+			}
 			if !eq {
 				res.Mismatch(vh.Mismatch{Section: s.sec, Function: fmt.Sprintf("RANGE [%d:%d] over %s after %s", r[0], r[1], p.tags, how), Input: s.in, Impl: impl, Model: vis})
 			}
@@ -1421,6 +1432,9 @@ func runCrash(c scase, sec string, sect *vh.Section, rng *vh.Rng) {
 				os.Truncate(f, st.Size()/2)
 			}
 		}
+		if cs.K == 0 && cs.Kind != "tree-missing" {
+			v.treeDamaged = true
+		}
 		if cs.K == 1 {
 			os.Remove(filepath.Join(img, "cindex", "cindex.dat"))
 			v.model("crash", true)
@@ -1519,10 +1533,23 @@ func genGraceful(rng *vh.Rng) scase {
 }
 
 // tree-zero / tree-half exist as replayable kinds but are not generated: see design-notes/C07.md (damaged tree files give wrong RANGE answers; C02's tree)
-var crashKinds = []string{"image", "image", "tindex-cut", "tindex-cut", "stop-cut", "pipesave-cut", "snap-missing", "snap-torn", "tree-missing", "tree-zero-intact", "stop-cut"}
+var crashKinds = []string{"image", "image", "tindex-cut", "tindex-cut", "stop-cut", "pipesave-cut", "snap-missing", "snap-torn", "tree-missing", "tree-zero-intact", "stop-cut", "tree-zero", "tree-half"}
 var lenClasses = []string{"0", "1", "h", "m", "f"}
 
 func genCrash(rng *vh.Rng, i int) scase {
+	if os.Getenv("C07_TREE_EXPERIMENT") != "" && i%2 == 0 {
+		// exploration switch (not used by the check): damaged tree files in every combination with the snapshot
+		c := scase{ChunkSize: rng.PickI([]int{700, 1500, 4000, 20000}), Ops: genOps(rng, rng.Range(3, 10), false)}
+		c.Ops = append(c.Ops, hop{Kind: "write", Part: 0, N: 300}, hop{Kind: "write", Part: 0, N: 280})
+		if rng.Bool() {
+			c.Ops = append(c.Ops, hop{Kind: "restart", Quiesce: true})
+		}
+		if rng.Bool() {
+			c.Ops = append(c.Ops, hop{Kind: "write", Part: 0, N: 3})
+		}
+		c.Crash = &crashSpec{Kind: rng.PickS([]string{"tree-zero", "tree-half"}), K: rng.Intn(2)}
+		return c
+	}
 	c := scase{ChunkSize: rng.PickI([]int{700, 1500, 4000, 20000}), Ops: genOps(rng, rng.Range(3, 10), false)}
 	cs := &crashSpec{Kind: crashKinds[i%len(crashKinds)]}
 	switch cs.Kind {
@@ -1541,12 +1568,17 @@ func genCrash(rng *vh.Rng, i int) scase {
 		if rng.Bool() {
 			c.Ops = append(c.Ops, hop{Kind: "restart", Quiesce: true}, hop{Kind: "write", Part: 0, N: 3})
 		}
-	case "tree-missing", "tree-zero", "tree-half":
+	case "tree-missing":
 		cs.K = 1 // tree damage is exercised together with a missing snapshot (see design-notes/C07.md: with a snapshot that still refers to a damaged tree the answers depend on C02's tree and on the asynchronous rebuilder)
 		c.Ops = append(c.Ops, hop{Kind: "write", Part: 0, N: 300}, hop{Kind: "write", Part: 0, N: 280})
 		if rng.Bool() {
 			c.Ops = append(c.Ops, hop{Kind: "restart", Quiesce: true})
 		}
+	case "tree-zero", "tree-half":
+		// damaged tree files with the snapshot that refers to them and growth since that snapshot (F47's class)
+		cs.K = 0
+		c.Ops = append(c.Ops, hop{Kind: "write", Part: 2, N: 90}, hop{Kind: "restart", Quiesce: true}, hop{Kind: "write", Part: 0, N: 260},
+			hop{Kind: "write", Part: 1, N: 2}, hop{Kind: "write", Part: 0, N: 300})
 	case "tree-zero-intact":
 		c.Ops = append(c.Ops, hop{Kind: "write", Part: 0, N: rng.PickI([]int{40, 300, 600})}, hop{Kind: "write", Part: 1, N: rng.PickI([]int{3, 280})},
 			hop{Kind: "restart", Quiesce: true})
